@@ -89,16 +89,19 @@ def C01(ctx):
             ("c01_n6_%d" % i, ["record", "bdd", "--mode", "c01", "--seed", ctx.seed * 1000 + 500 + i,
                                "--segments", 3, "--len", 250, "--nmax", 6]) for i in range(16 * TH)]
     record_and_validate(ctx, jobs, "TraceBdd", "TraceBdd_C01.cfg")
+    stress_canonical(ctx, "bdd", check="fn")
 
 
-def stress_canonical(ctx, which):
+def stress_canonical(ctx, which, check="canon"):
     """long histories at REAL table sizes: N pseudo-random 6-variable functions printed by TLC (GenStress) with their conjunctions /
     disjunctions / negations (/ xors) built in ONE canonical builder with default capacities (the unique table grows at 91 751, 183 501, ...
     nodes): right functions, and same function <=> same pointer."""
     n = 20000 if ctx.quick else 60000
-    cfg = mkcfg(ctx, "GenStress_%s.cfg" % which, "SPECIFICATION Spec\nCONSTANTS\n  NV = 6\n  N = %d\n  Seed = %d\nCHECK_DEADLOCK FALSE\n" % (n, ctx.seed + 3))
-    gen_and_replay(ctx, "GenStress", cfg, "stressvec", "%d pseudo-random 6-variable functions + and / or / neg in one canonical %s builder at default table sizes" % (n, which),
-                   extra_replay=["--nv", 6, "--which", which, "--seed", ctx.seed], timeout=2400)
+    cfg = mkcfg(ctx, "GenStress_%s_%s.cfg" % (which, check), "SPECIFICATION Spec\nCONSTANTS\n  NV = 6\n  N = %d\n  Seed = %d\nCHECK_DEADLOCK FALSE\n" % (n, ctx.seed + 3))
+    what = {"canon": "same function <=> same pointer", "fn": "every result denotes what TLC printed",
+            "twin": "the lossy-cache builder and the cache-everything builder return the same functions"}[check]
+    gen_and_replay(ctx, "GenStress", cfg, "stressvec", "%d pseudo-random 6-variable functions + and / or / neg / xor in one %s builder at default table sizes: %s" % (n, which, what),
+                   extra_replay=["--nv", 6, "--which", which, "--seed", ctx.seed, "--check", check], timeout=2400)
 
 
 def C02(ctx):
@@ -147,6 +150,8 @@ def C16(ctx):
     n = 4 if ctx.quick else 24 * TH
     record_and_validate(ctx, [("lru_%d" % i, ["record", "lru", "--seed", ctx.seed * 1000 + i, "--segments", 30, "--len", 80])
                               for i in range(n)], "TraceLru", "TraceLru.cfg")
+    # at scale: 20 000-function histories in one builder per cache kind at default sizes; the two builders must return the same functions
+    stress_canonical(ctx, "bdd", check="twin")
     # builder level: the same random programs under every cache configuration; every trace must be a
     # behaviour of BddApi with canonicity enforced, hence all caches return the same canonical diagrams
     if ctx.quick:
